@@ -152,6 +152,10 @@ Proof. apply word_mem. Qed.
 
 Definition col_names_ok (es : list enumdecl) : Prop := forall e, In e es -> forallb is_word (e_tname e) = true.
 
+Lemma decl_suffix_eq es c : decl_suffix es c =
+  arr_suffix c ++ match c_type c, enum_for (c_name c) es with TChar w, None => brack w | _, _ => [] end.
+Proof. reflexivity. Qed.
+
 (* classification and array-ness of every supported column *)
 Theorem typ_of_facts es c : col_names_ok es -> wkind es c <> None ->
   classify (typ_of es c) = kind_of (c_type c) /\ isarray (typ_of es c) = is_arr c.
@@ -159,7 +163,7 @@ Proof.
   intros Hes Hk. unfold wkind in Hk. destruct (c_type c) eqn:Et; try congruence.
   1-5: (destruct (typ_of_num es c) as [kw [Hin [-> Hc]]]; [rewrite Et; cbn; auto 7|]; rewrite Et in Hc; split; [exact Hc|];
         apply isarray_no_c; cbn [In] in Hin; repeat (destruct Hin as [<-|Hin]; [reflexivity|]); contradiction).
-  unfold typ_of, ctype_word, decl_suffix. rewrite Et. fold (arr_suffix c).
+  unfold typ_of, ctype_word. rewrite decl_suffix_eq, Et.
   destruct (enum_for (c_name c) es) as [e|] eqn:Ee.
   - rewrite app_nil_r. pose proof (Hes e (enum_for_In _ _ _ Ee)) as Hw. pose proof (upper_word _ Hw) as Hu. split.
     + unfold classify. rewrite basetype_app; [|now apply word_mem|apply arr_suffix_head].
